@@ -118,9 +118,28 @@ structure EnumSt (σ : Type) where
 
 def ceilDiv (a b : Int) : Int := -((-a) / b)   -- b > 0
 
-/-- candidates of dimension `i` given the numerators `pre` of the dimensions `< i` -/
+/-- `a⁻¹ mod n` (`n > 1`, `gcd a n = 1`) by the extended Euclidean algorithm -/
+def invMod (a n : Int) : Int :=
+  let rec go (fuel : Nat) (r0 r1 s0 s1 : Int) : Int :=
+    match fuel with
+    | 0 => s0
+    | f + 1 => if r1 == 0 then s0 else let q := r0 / r1; go f r1 (r0 - q * r1) s1 (s0 - q * s1)
+  (go 4000 (a % n) n 1 0) % n
+
+/-- the solutions `t` of `a*t + c ≡ 0 (mod M)` (`M > 0`, `a ≠ 0`): `t ≡ t0 (mod S)` -/
+def solveCong (a c M : Int) : Option (Int × Int) :=
+  let g : Int := (Int.gcd a M : Nat)
+  if (-c) % g != 0 then none else
+  let M' := M / g
+  if M' == 1 then some (0, 1) else
+  let a' := (a / g) % M'
+  some ((((-c) / g) % M' * invMod a' M') % M', M')
+
+/-- candidates of dimension `i` given the numerators `pre` of the dimensions `< i`: an arithmetic
+    progression inside the bounds propagated from the rows whose last variable is `i`, following the
+    first congruence whose last variable is `i` (so that the points `v + k*f` of a grid are met in
+    every quadrant of the window, whatever the frequency `f`) -/
 def candidates (E : EnumEnv) (i : Nat) (pre : List Int) : List Int × Bool × Bool :=
-  -- bounds from the rows whose last variable is `i`
   let init : Int × Int × Bool × Bool := (E.winLo i, E.winHi i, true, true)   -- lo, hi, loFromWindow, hiFromWindow
   let (lo, hi, lw, hw) := E.cs.foldl (fun (acc : Int × Int × Bool × Bool) c =>
     if lastVar c.coeffs != i + 1 then acc else
@@ -133,19 +152,43 @@ def candidates (E : EnumEnv) (i : Nat) (pre : List Int) : List Int × Bool × Bo
       else
         let b := part / (-a)
         if b < hi then (lo, b, lw, false) else acc) init
-  let step : Int := if E.isInt i then E.den else 1
-  let lo := if E.isInt i then ceilDiv lo E.den * E.den else lo
-  let hi := if E.isInt i then (hi / E.den) * E.den else hi
-  if hi < lo then ([], false, false) else
-  let cnt := ((hi - lo) / step + 1).toNat
+  let step0 : Int := if E.isInt i then E.den else 1
+  -- the progression of the first congruence on `i`: (residue, modulus); `none` = no solution at all
+  let prog : Option (Int × Int) :=
+    match E.cgs.find? (fun g => lastVar g.a == i + 1) with
+    | none => some (0, 1)
+    | some g =>
+      let a := g.a.getD i 0
+      let part := zsum (g.a.take i) pre + g.k * E.den
+      if g.m == 0 then (if part % a == 0 then some (-part / a, 0) else none)
+      else solveCong a part (g.m.natAbs * E.den)
+  match prog with
+  | none => ([], false, false)
+  | some (t0, S) =>
+  if S == 0 then
+    (if lo ≤ t0 && t0 ≤ hi && t0 % step0 == 0 then [t0] else [], false, false)
+  else
+  -- intersect with the multiples of `step0` (small): first element of the `S`-progression that is one
+  let aligned := (List.range step0.toNat).find? fun (j : Nat) => (t0 + (j : Int) * S) % step0 == 0
+  match aligned with
+  | none => ([], false, false)
+  | some j =>
+  let t1 := t0 + (j : Int) * S
+  let step := S / (Int.gcd S step0 : Nat) * step0       -- lcm
+  let first := t1 + ceilDiv (lo - t1) step * step
+  if hi < first then ([], false, false) else
+  let cnt := ((hi - first) / step + 1).toNat
   let clipped := lw || hw
   if cnt ≤ E.maxPerDim i then
-    ((List.range cnt).map (fun (k : Nat) => lo + (k : Int) * step), false, clipped)
+    ((List.range cnt).map (fun (k : Nat) => first + (k : Int) * step), false, clipped)
   else
-    let ends := (List.range 4).flatMap fun (k : Nat) => [lo + (k : Int) * step, hi - (k : Int) * step]
-    let sp := (E.special i).filter fun v => lo ≤ v && v ≤ hi && (v - lo) % step == 0
+    let last := first + ((hi - first) / step) * step
+    let ends := (List.range 4).flatMap fun (k : Nat) => [first + (k : Int) * step, last - (k : Int) * step]
+    let sp := (E.special i).flatMap fun v =>
+      let u := first + ceilDiv (v - first) step * step
+      [u, u - step].filter fun t => first ≤ t && t ≤ last
     let m := E.maxPerDim i / 2 + 1
-    let stride := (List.range m).map fun (k : Nat) => lo + (((hi - lo) / step) * (k : Int) / (m : Int)) * step
+    let stride := (List.range m).map fun (k : Nat) => first + (((hi - first) / step) * (k : Int) / (m : Int)) * step
     ((ends ++ sp ++ stride).eraseDups, true, clipped)
 
 /-- depth-first enumeration; `leaf` is called on every point of the disjunct found -/
@@ -269,11 +312,14 @@ def judgeWrap (id : String) (dom : String) (n : Nat) (cfg : WrapCfg) (arg res : 
   let mn := minValue cfg.r cfg.w
   let mx := maxValue cfg.r cfg.w
   let isInt := fun i => vars.contains i
-  let winLo := fun i => if vars.contains i then (mn - 2 * P - 3) * den else -8 * den
-  let winHi := fun i => if vars.contains i then (mx + 2 * P + 3) * den else 8 * den
+  -- grids: nine periods of the type on each side, so that the points `v + k*f` are met for |k| up to a few
+  -- even when the frequency `f` is a few times `2^w`
+  let K : Int := if dom == "G" then 9 else 2
+  let winLo := fun i => if vars.contains i then (mn - K * P - 3) * den else -8 * den
+  let winHi := fun i => if vars.contains i then (mx + K * P + 3) * den else 8 * den
   let special := fun i =>
     if vars.contains i then
-      (List.range 8).flatMap fun (k : Nat) => (List.range 7).map fun (j : Nat) => (mn + ((k : Int) - 3) * P + ((j : Int) - 3)) * den
+      (List.range 22).flatMap fun (k : Nat) => (List.range 7).map fun (j : Nat) => (mn + ((k : Int) - 10) * P + ((j : Int) - 3)) * den
     else []
   let nW := vars.length
   let nN := n - nW
